@@ -138,6 +138,26 @@ CLAIMED = {
         "note": _NOTE + " Entry points that fetch signatures from function objects / protocols / overrides (visitor) are outside the claim.",
         "technique": "CrossHair symbolic execution + z3; differential against real CPython calls; symbolic preorder",
     },
+    "C06": {
+        "design_ref": "DESIGN.md section 5 C06",
+        "text": ("Kernel claim on Signature.check_call_preprocessed: for plain / defaulted (also with a default outside its annotation) / "
+                 "T-generic signatures over stub atoms under a symbolic preorder, diagnosed <=> some explicitly passed argument is not "
+                 "accepted by its parameter type; for generic signatures an accepted call's solution makes every argument acceptable "
+                 "and respects bound / constraints; with real constructors (Literal, Annotated[int, Gt], Optional, list, tuple) and "
+                 "literal arguments with unbounded payloads, diagnosed <=> not a member."),
+        "note": _NOTE + " Methods, constructors, dataclasses, impl functions and allow_call evaluation are outside the claim.",
+        "technique": "CrossHair symbolic execution + z3; symbolic preorder; membership model",
+    },
+    "C15": {
+        "design_ref": "DESIGN.md section 5 C15",
+        "text": ("Call-level claim: generic signatures with 1-3 parameters from {T, list[T], Callable[[T], None], Callable[[], T]} and plain / "
+                 "bounded / constrained T are checked by the real call path (both compatibility passes, unify_bounds_maps, "
+                 "resolve_bounds_map, solve) over stub atoms under a symbolic preorder; in one path every permutation of the parameter "
+                 "list is evaluated: same verdict for all orders; an accepted call's solution accepts all lower bounds, is accepted by all "
+                 "upper bounds / the declared bound, and is a constraint when constraints exist; a call with no feasible value is diagnosed."),
+        "note": _NOTE + " A solve()-only obligation is deliberately not claimed (its counterexample is rescued by the caller's second pass - DESIGN.md section 7 F3).",
+        "technique": "CrossHair symbolic execution + z3; symbolic preorder; all permutations inside one path",
+    },
 }
 
 _PENDING = "harness not landed yet in this commit (build in progress; see DESIGN.md section 9)"
